@@ -89,3 +89,52 @@ Definition canonical_b (root : node) : bool :=
      | [kc] => canon_node true (snd kc)
      | _ => false
      end.
+
+(* ---- the invariant split in three: structure, order-and-flags, dirty discipline ----
+   [wf]   structure that insert/delete/optimize all preserve (no order, no flags, no dirty marks)
+   [tidy] every child list strictly sorted and every stored-true flag justified, hereditarily
+   [disc] the dirty discipline that holds between Node::insert and optimize: a clean node is tidy;
+          below a dirty node the discipline holds again *)
+Definition key_ok (k : kind) (ky : key) : bool := key_kind_ok k ky && negb (hd_is SL (fst ky)).
+
+Fixpoint keys_nodup (l : list (key * node)) : bool :=
+  match l with
+  | [] => true
+  | x :: l' => negb (existsb (fun y : key * node => keqb (fst x) (fst y)) l') && keys_nodup l'
+  end.
+
+Definition alive (n : node) : bool := has_data n || negb (no_kids_b n).
+
+Fixpoint wf (n : node) {struct n} : bool :=
+  let mid (k : kind) (l : list (key * node)) :=
+    keys_nodup l
+    && forallb (fun kc : key * node =>
+         key_ok k (fst kc) && only_static_kids (snd kc)
+         && (if is_dyn k then true else negb (has_data (snd kc)))
+         && alive (snd kc) && wf (snd kc)) l in
+  let ends (k : kind) (l : list (key * node)) :=
+    keys_nodup l
+    && forallb (fun kc : key * node => key_ok k (fst kc) && has_data (snd kc) && no_kids_b (snd kc)) l in
+  static_keys_ok (n_st n)
+  && forallb (fun kc : key * node => alive (snd kc) && wf (snd kc)) (n_st n)
+  && mid KDC (n_dc n) && mid KDY (n_dy n) && mid KWC (n_wc n) && mid KWI (n_wi n)
+  && ends KEC (n_ec n) && ends KEN (n_en n).
+
+Definition flags_ok (n : node) : bool :=
+  implb (n_dflag n) (forallb (fun kc : key * node => slash_ok (snd kc)) (n_dc n ++ n_dy n))
+  && implb (n_wflag n) (forallb (fun kc : key * node => slash_ok (snd kc)) (n_wc n ++ n_wi n)).
+
+Definition lists_sorted (n : node) : bool :=
+  strictly_sorted (n_st n) && strictly_sorted (n_dc n) && strictly_sorted (n_dy n)
+  && strictly_sorted (n_wc n) && strictly_sorted (n_wi n) && strictly_sorted (n_ec n) && strictly_sorted (n_en n).
+
+Fixpoint tidy (n : node) {struct n} : bool :=
+  let sub (l : list (key * node)) := forallb (fun kc : key * node => tidy (snd kc)) l in
+  lists_sorted n && flags_ok n
+  && sub (n_st n) && sub (n_dc n) && sub (n_dy n) && sub (n_wc n) && sub (n_wi n) && sub (n_ec n) && sub (n_en n).
+
+Fixpoint disc (n : node) {struct n} : bool :=
+  let sub (l : list (key * node)) := forallb (fun kc : key * node => disc (snd kc)) l in
+  if n_dirty n
+  then sub (n_st n) && sub (n_dc n) && sub (n_dy n) && sub (n_wc n) && sub (n_wi n) && sub (n_ec n) && sub (n_en n)
+  else tidy n.
